@@ -14,7 +14,8 @@ from symx.docenv import parse, text_of
 from autobean_refactor import models
 
 D = decimal.Decimal
-SHAPES = ['2', '3+5', '7 * 11', '-13', '(17+19)', '23-29*31', '37/2 - 41', '-(43+47)', '+ 53', '59 -  -61', '(67)', '1.50', '2*(3+5)', '7-11-13', '64/4/2', '1/3*3', '10/6/7*2']
+SHAPES = ['2', '3+5', '7 * 11', '-13', '(17+19)', '23-29*31', '37/2 - 41', '-(43+47)', '+ 53', '59 -  -61', '(67)', '1.50', '2*(3+5)', '7-11-13', '64/4/2', '1/3*3', '10/6/7*2',
+          '123456789012.123456789012345678', '1000000000000000000000000000.5 - 1000000000000000000000000000.25', '-123456789012.123456789012345678']   # > 28 significant digits
 SCALARS = [4, -4, D('1.5'), D('-2.5'), 0]
 BIN = ['+', '-', '*', '/']
 
@@ -55,14 +56,18 @@ def evaluate(text):
             assert take() == ')'
             return v
         if t == '-':
-            return -factor()
+            return exact_neg(factor())      # a sign is not an arithmetic operation: it keeps every digit (Decimal's unary operators round to the context)
         if t == '+':
-            return +factor()
+            return factor()
         return D(t.replace(',', ''))
 
     v = expr()
     assert pos[0] == len(toks)
     return v
+
+
+def exact_neg(v):
+    return v.copy_negate() if v else v
 
 
 def arith(op, a, b):
@@ -245,10 +250,10 @@ def make_unary(twin=False):
             va = evaluate(SHAPES[sa])
             before = (text_of(a), text_of(fa) if fa else None)
             res = -a if neg else +a
-            ev = -va if neg else +va
+            ev = exact_neg(va) if neg else va
             if twice:
                 res = -res
-                ev = -ev
+                ev = exact_neg(ev)
             if twin:
                 raise Fail('twin reached the assertion point')
             what = 'unary %s on %r' % ('-' if neg else '+', before[0])
@@ -267,7 +272,7 @@ def make_unary(twin=False):
 
 def make_value_setter():
     """NumberExpr.value = v / from_value(v): read back, print, re-parse (negative values need a unary minus)."""
-    vals = [D('0'), D('7'), D('-7'), D('1.50'), D('-0.25'), D('1000000'), D('0.0000001')]
+    vals = [D('0'), D('7'), D('-7'), D('1.50'), D('-0.25'), D('1000000'), D('0.0000001'), D('123456789012.123456789012345678'), D('-123456789012.123456789012345678')]
 
     def cell(sa: int, ka: int, vi: int) -> None:
         assert 0 <= sa < len(SHAPES) and 0 <= ka <= 3 and 0 <= vi < len(vals)
@@ -343,7 +348,7 @@ def make_inner_edit(kind, fo, twin=False):
             va = evaluate(text_of(a))
             if f == 'neg':
                 r = -a
-                check(r.value == -va and evaluate(text_of(r)) == -va, what, 'then unary minus gives', r.value, R(text_of(r)), 'expected', -va)
+                check(r.value == exact_neg(va) and evaluate(text_of(r)) == exact_neg(va), what, 'then unary minus gives', r.value, R(text_of(r)), 'expected', exact_neg(va))
             elif f is not None:
                 op, b, md = f
                 if op == '/' and b == 0:
@@ -372,17 +377,17 @@ Q, T = ('quick', 'thorough'), ('thorough',)
 for _op in range(4):
     for _mode in range(3):
         _reg(make_binop(_op, _mode), {'C13': Q}, 1200, 'binop',
-             '%s mode %d: 15 left shapes x 4 attachments x (15 right shapes x 4 attachments | 5 scalars)' % (BIN[_op], _mode), cost=50 if _mode == 1 else 500)
+             '%s mode %d: 20 left shapes x 4 attachments x (20 right shapes x 4 attachments | 5 scalars)' % (BIN[_op], _mode), cost=50 if _mode == 1 else 500)
 for _op1 in range(4):
     for _op2 in range(4):
         _reg(make_chain(_op1, _op2), {'C13': T}, 3000, 'chain', '(a %s b) %s c: 6 shapes x {free, attached} per operand, 2 scalars, plain/in-place per step' % (BIN[_op1], BIN[_op2]))
-_reg(make_unary(), {'C13': Q}, 600, 'unary', '15 shapes x 4 attachments x {+,-} x {once, twice}', cost=50)
-_reg(make_value_setter(), {'C13': Q}, 600, 'value', '15 shapes x 4 attachments x 7 decimal values', cost=50)
+_reg(make_unary(), {'C13': Q}, 600, 'unary', '20 shapes x 4 attachments x {+,-} x {once, twice}', cost=50)
+_reg(make_value_setter(), {'C13': Q}, 600, 'value', '20 shapes x 4 attachments x 9 decimal values', cost=50)
 for _kind in range(3):
     for _fo in range(len(FOLLOW)):
         _quick = (_kind, _fo) in ((0, 0), (0, 2), (1, 1), (2, 0), (2, 5))
         _reg(make_inner_edit(_kind, _fo), {'C13': Q if _quick else T, 'C06': Q if (_kind, _fo) in ((0, 0), (2, 0)) else T}, 900, 'inner-edit',
-             '17 shapes x 4 attachments x %s x 4 new numbers, then %s; every value of every node read before and after the edit'
+             '20 shapes x 4 attachments x %s x 4 new numbers, then %s; every value of every node read before and after the edit'
              % (('number token (<= 6).value = v', 'number token (<= 6).raw_text = s', 'content of a parenthesis replaced')[_kind],
                 'no further operation' if FOLLOW[_fo] is None else 'operator %r' % (FOLLOW[_fo],)), cost=100)
 _reg(make_inner_edit(0, 0, twin=True), {'C13': Q}, 120, 'inner-edit', 'vacuity twin', twin=True, cost=1)
